@@ -18,7 +18,7 @@ from types import CodeType, ModuleType
 from typing import TYPE_CHECKING, Callable, Dict, Generator, List, Optional, Tuple
 
 from pyccolo.ast_bookkeeping import AstBookkeeper
-from pyccolo.emit_event import _TRACER_STACK, SkipAll
+from pyccolo.emit_event import _TRACER_STACK, SkipAll, _main_thread_id, _switches
 from pyccolo.extra_builtins import GUARD_PREFIX
 from pyccolo.trace_events import TraceEvent
 from pyccolo.utils import clone_function
@@ -74,6 +74,40 @@ def _cache_signature_of(path: str) -> Optional[str]:
     if len(parts) >= -idx and parts[idx].startswith("pyccolo"):
         return parts[idx]
     return None
+
+
+def _emit_import_event(tracer: "BaseTracer", evt: str, frame, **kwargs):
+    """before_import / after_import go to one tracer at a time, not through emit_event's loop over the stack:
+    its thread rule and its reentrancy rule are applied here (an import made by a running handler does not
+    enter handlers; a handler of an import event is a running handler like any other)"""
+    unchanged = kwargs.get("ret")
+    if (
+        threading.current_thread().ident != _main_thread_id
+        and not tracer.multiple_threads_allowed
+    ):
+        return unchanged
+    is_reentrant = not _switches.allow_event_handling
+    if (
+        is_reentrant
+        and not tracer.allow_reentrant_events
+        and not _switches.allow_reentrant_event_handling
+    ):
+        return unchanged
+    orig_allow_event_handling = _switches.allow_event_handling
+    orig_allow_reentrant_event_handling = _switches.allow_reentrant_event_handling
+    _switches.allow_event_handling = False
+    try:
+        return tracer._emit_event(
+            evt,
+            None,
+            frame,
+            reentrant_handlers_only=is_reentrant
+            and not _switches.allow_reentrant_event_handling,
+            **kwargs,
+        )
+    finally:
+        _switches.allow_event_handling = orig_allow_event_handling
+        _switches.allow_reentrant_event_handling = orig_allow_reentrant_event_handling
 
 
 class TraceLoader(SourceFileLoader):
@@ -207,9 +241,9 @@ class TraceLoader(SourceFileLoader):
     def get_filename(self, name: Optional[str] = None) -> str:
         source_path = super().get_filename(name)
         for tracer in reversed(self._tracers):
-            new_path = tracer._emit_event(
+            new_path = _emit_import_event(
+                tracer,
                 TraceEvent.before_import.value,
-                None,
                 sys._getframe(),
                 ret=source_path,
                 qualified_module_name=name,
@@ -485,8 +519,8 @@ class TraceLoader(SourceFileLoader):
             for tracer, should_reenable in zip(
                 tracers, should_reenable_saved_state
             ):
-                tracer._emit_event(
-                    TraceEvent.after_import.value, None, sys._getframe(), module=module
+                _emit_import_event(
+                    tracer, TraceEvent.after_import.value, sys._getframe(), module=module
                 )
                 num_handled += 1
                 if should_reenable:
